@@ -87,6 +87,7 @@ type GenesisSpec struct {
 	Funds    []Fund          `json:"funds,omitempty"`
 	Locked   []Fund          `json:"locked,omitempty"` // permanently locked (vesting) part of an account's funds
 	Hasher   HasherSpec      `json:"hasher,omitempty"`
+	ChainID  string          `json:"chain_id,omitempty"` // "" = the harness default "verif-1"
 	Notes    []string        `json:"notes,omitempty"`
 }
 
